@@ -90,7 +90,7 @@ def build_handoff(seed, owner):
 
 
 def plan(tier, seed, build, scale):
-    units = []
+    units = [{"mode": "generations", "n": 300 if tier == "quick" else 5000, "cases": [0, 1]}]
     rounds = int((12 if tier == "quick" else 150) * scale) or 1
     for nthreads in (2, 4, 8, 16):
         for perf in (False, True):
@@ -345,6 +345,19 @@ def run_unit(unit, progress):
 
     res = tl.new_result()
     c = res["counters"]
+    if unit.get("mode") == "generations":
+        from .. import generations
+
+        progress(0)
+        viol, stats = generations.run_generations(unit["n"])
+        res["evaluations"] = stats["generations"]
+        c["sequential_thread_generations"] = stats["generations"]
+        c["thread_idents_reused"] = stats["thread_idents_reused"]
+        res["nontrivial"] = [hash(("gen", i)) & 0xFFFFFFFFFFFF for i in range(stats["thread_idents_reused"])]
+        for v in viol[:2]:
+            res["violations"].append({"oracle": v[0], "mechanism": v[0] + "/sequential-threads", "detail": v[1], "case": dict(unit)})
+        res["samples"].append(dict(stats))
+        return res
     progress(unit["cases"][0])
     n = unit["threads"]
     rounds = unit["rounds"]
@@ -441,6 +454,8 @@ def reach(c, tier):
     out = []
     if c.get("thread_switches_between_adjacent_events", 0) < 200:
         out.append("fewer than 200 thread switches observed (%s)" % c.get("thread_switches_between_adjacent_events"))
+    if not c.get("thread_idents_reused"):
+        out.append("no thread identifier was reused by the sequential generations (nothing learnt from them)")
     for k in ("rounds_interleaved_with_other_threads", "distinct_interleavings", "units_threads_8", "units_threads_4_perf"):
         if not c.get(k):
             out.append("%s is zero" % k)
